@@ -295,7 +295,8 @@ def index_answers(idx, vocab_built, measurements=(None, "m", "n", "zz")):
     out.append((("get_measurements",), _norm(call(idx.get_measurements))))
     out.append((("len",), call(len, idx)))
     out.append((("empty",), call(lambda: idx.empty)))
-    if len(idx):
+    n = call(len, idx)
+    if n[0] == "ret" and n[1]:
         out.append((("latest_time",), call(lambda: idx.latest_time)))
     for m in measurements:
         out.append((("get_tag_keys", m), _norm(call(idx.get_tag_keys, m))))
